@@ -207,7 +207,8 @@ def _missing_reverse_relation(lex: lmf.Lexicon, ids: _Ids) -> _Result:
                  for s, r in _sense_relations(lex)
                  if r['target'] in ids['sense']]
     relations.extend((ss['id'], r['relType'], r['target'])
-                     for ss, r in _synset_relations(lex))
+                     for ss, r in _synset_relations(lex)
+                     if r['target'] in ids['synset'])  # see E401 for the others
     regular = set(relations)
     # iterate in document order so the report does not depend on set order
     return {tgt: {'type': REVERSE_RELATIONS[typ], 'target': src}
